@@ -27,7 +27,37 @@ def _env(extra_cfg=()):
     return e
 
 
+BATCH = 48   # kani-driver keeps every harness's CBMC output in memory (553 harnesses in one run: 41 GB, OOM-killed): run in batches
+
+
 def run_kani(unit, harnesses, jobs=8, timeout='15m'):
+    """runs the harnesses in batches of BATCH per cargo-kani invocation and merges the JSON exports"""
+    if len(harnesses) <= BATCH:
+        return _run_kani_once(unit, harnesses, jobs, timeout)
+    merged = None
+    out = {'cmd': '', 'rc': 0, 'stdout': '', 'stderr': '', 'json': None, 'wall_s': 0.0}
+    nb = (len(harnesses) + BATCH - 1) // BATCH
+    for b in range(nb):
+        part = harnesses[b * BATCH:(b + 1) * BATCH]
+        r = _run_kani_once(unit, part, jobs, timeout)
+        out['wall_s'] += r['wall_s']
+        out['rc'] = out['rc'] or r['rc']
+        out['stdout'] = (out['stdout'] + r['stdout'])[-20000:]
+        out['stderr'] = (out['stderr'] + r['stderr'])[-20000:]
+        if not out['cmd']:
+            out['cmd'] = '(%d batches of <= %d harnesses, first shown) ' % (nb, BATCH) + r['cmd']
+        if r['json'] is None:
+            # a batch without export: its harnesses get no verdict (reported undecided one by one), the others keep theirs
+            continue
+        if merged is None:
+            merged = r['json']
+        else:
+            merged['verification_results']['results'] += r['json']['verification_results']['results']
+    out['json'] = merged
+    return out
+
+
+def _run_kani_once(unit, harnesses, jobs=8, timeout='15m'):
     os.makedirs(BUILD, exist_ok=True)
     out_json = os.path.join(BUILD, 'kani_%s.json' % unit.replace('-', '_').lower())
     if os.path.exists(out_json):
@@ -159,7 +189,7 @@ def _check_unit(unit, harnesses, tier='quick', jobs=8, do_playback=True):
         x = by.get(h.name)
         hrec = {'harness': h.name, 'complete': h.complete, 'bound': h.bound, 'refusal': h.refusal}
         if x is None:
-            res['notes'].append('harness %s not found in the crate (lost anchor): undecided' % h.name)
+            res['notes'].append('harness %s: no result (not found in the crate, or its batch produced no export): undecided' % h.name)
             undecided = True
             continue
         checks = x.get('checks', [])
